@@ -10,6 +10,7 @@
 -/
 import AuthModel.Generated.CodeStore
 import AuthModel.Store.Memory
+import AuthModel.Store.Redis
 set_option linter.unusedSimpArgs false
 namespace AuthModel.CodeEquiv
 open AuthModel AuthModel.Str
@@ -150,6 +151,41 @@ theorem code_live_idle (env : Go.Env) (m : Pb.MemoryStore) (id : Str) (now : Int
     unfold sessOpt at h2
     cases hr : r.isNil <;> simp_all
   · rw [h5 id, hl]; simp [upd]
+
+/-! ### `newSession`, and the conversions of the Redis store's scanned records (redis.go) -/
+
+/-- THE CODE's `newSession(t)`: a non-nil session without tokens or login state, created and last accessed at `t` - the
+    record `MemStore.set` starts a new session from, and what makes `StoreWF` hold for a session created at a clock reading -/
+theorem code_newSession (env : Go.Env) (t : Go.Time) :
+    ∃ s, Code.newSession env t = .ok s ∧ s.isNil = false ∧ s.added = t ∧ s.accessed = t ∧
+      (sessOf s).tokens = none ∧ (sessOf s).auth = none := by
+  refine ⟨{ added := t, accessed := t }, rfl, rfl, rfl, rfl, ?_, ?_⟩ <;> simp [sessOf, tokensOf, authOf]
+
+/-- what scanning the answer of HMGET into a `redisToken` yields for a hash: each member in its own field, an absent
+    member as the zero value (go-redis `Scan`, hand-written) -/
+def scanTok (h : RHash) : Pb.RedisToken :=
+  { IDToken := h.idToken.getD [], AccessToken := h.accessToken.getD [], RefreshToken := h.refreshToken.getD [],
+    AccessTokenExpiresAt := { unixNano := h.accessExp }, TimeAdded := { unixNano := h.timeAdded } }
+
+def scanAuth (h : RHash) : Pb.RedisAuthState :=
+  { State := h.state.getD [], Nonce := h.nonce.getD [], RequestedURL := h.requestedUrl.getD [],
+    CodeVerifier := h.codeVerifier.getD [], TimeAdded := { unixNano := h.timeAdded } }
+
+/-- THE CODE's `redisToken.TokenResponse()`: every stored member lands in its own field of the token response (the
+    creation time is not part of it) - the model's `Redis.tokensOf` -/
+theorem code_redis_token (env : Go.Env) (h : RHash) :
+    ∃ t, Code.TokenResponse env (scanTok h) = .ok t ∧ tokensOf t = some (Redis.tokensOf h) := by
+  refine ⟨_, rfl, ?_⟩
+  simp [tokensOf, Redis.tokensOf, scanTok, Pb.RedisToken.IDToken!, Pb.RedisToken.AccessToken!,
+    Pb.RedisToken.RefreshToken!, Pb.RedisToken.AccessTokenExpiresAt!]
+
+/-- THE CODE's `redisAuthState.AuthorizationState()` is the model's `Redis.authOf` -/
+theorem code_redis_auth (env : Go.Env) (h : RHash) :
+    ∃ a, Code.AuthorizationState env (scanAuth h) = .ok a ∧ authOf a = some (Redis.authOf h) := by
+  refine ⟨_, rfl, ?_⟩
+  simp [authOf, Redis.authOf, scanAuth, Pb.RedisAuthState.State!, Pb.RedisAuthState.Nonce!,
+    Pb.RedisAuthState.RequestedURL!, Pb.RedisAuthState.CodeVerifier!]
+
 
 /-! ### examples: a store with one session, created at 100 and last used at 150; absolute 1000, idle 100 -/
 
